@@ -8,7 +8,7 @@ from pathlib import Path
 
 ROOT = Path(__file__).resolve().parent.parent
 
-TRUST = ("Trusted: CPython 3.12 + asyncio, protobuf runtime, cryptography primitives, the harness (engine S rotates, per scenario and recorded in every witness: client debug flag, clock start incl. a month of uptime, address family, errno of a dying link, loop debug mode, the Python form of the stop callback, chunking of the device's stream, firmware flavour of default devices (hello without a name / API 1.2, 1.8, 1.12 / deep sleep), display and log names with formatting-special characters, module loggers disagreeing about DEBUG; process monotonic clocks follow the simulated clock; a quarter of each check's worker processes runs under python -O, a quarter with DeprecationWarnings as errors, and for C04/C08/C12 a quarter on the pure-Python protobuf back end). "
+TRUST = ("Trusted: CPython 3.12 + asyncio, protobuf runtime, cryptography primitives, the harness (engine S rotates, per scenario and recorded in every witness: client debug flag, clock start incl. a month of uptime, address family, errno of a dying link, loop debug mode, the Python form of the stop callback, chunking of the device's stream, firmware flavour of default devices (hello without a name / API 1.2, 1.8, 1.12 / deep sleep), display and log names with formatting-special characters, module loggers disagreeing about DEBUG, harness calls made from inside an exception handler (one scenario in four); process monotonic clocks follow the simulated clock; a quarter of each check's worker processes runs under python -O, a quarter with DeprecationWarnings as errors, and for C04/C08/C12 a quarter on the pure-Python protobuf back end). "
          "Oracles use an independent codec / Noise responder / api.proto text parser / executable models, never the code under test.")
 
 # id -> (engine, category, level text, technique, design_ref)
@@ -153,6 +153,20 @@ NOT_YET = {
 }
 
 
+ROUND14 = {
+    "C01": " Part S also: a subscriber that takes 0.5-30 ms of the process clock per state, 8 / 40 states in one chunk, device then staying / EOF / goodbye / reset - all handed over in the loop iteration that read the chunk.",
+    "C05": " A second start_connection() / finish_connection() on the same object entered at every loop step while the first is still in flight (task and eager task): refused, first attempt undisturbed, one socket, monotone states. Traffic of the device's own crossing a local disconnect; client objects built inside an earlier, closed event loop.",
+    "C07": " Requests and traffic of the device's own (ping, time request, states, log lines) crossing a local disconnect() before the answer / EOF / reset / deadline: still once, still True. Client objects built inside an earlier, closed event loop.",
+    "C08": " A subscriber raising eight exception classes (incl. the library's own APIConnectionError family) mid-chunk: once the socket is gone the connection is CLOSED, stop hook run, no timer armed, outstanding request ended. Traffic crossing a local disconnect; clients built in an earlier, closed loop.",
+    "C09": " connect / two-phase connect / device_info / disconnect awaited from inside an `except` body of five exception classes (sys.exc_info() non-empty in the await chain) against healthy, refusing and hanging-up devices. Traffic crossing a local disconnect; clients built in an earlier, closed loop.",
+    "C11": " One script in four awaits a call from inside an exception handler (TimeoutError / CancelledError / KeyError / TimeoutAPIError being handled by the caller); leftover audit unchanged.",
+    "C13": " Process-wide device-side monitor: every frame any simulated device decoded in the worker (both framings, many sessions) carried a declared type number.",
+    "C16": " Unsolicited GATT notifications for the operation's own (or a neighbouring) address and handle ahead of and between the answers, in the exhaustive reply alphabet and the random replies.",
+    "C18": " mDNS batches with other record types (SRV, TXT, AAAA, NSEC) around the matching record; a back-off instant justifies an attempt only until a newer failure has been reported (stale retry timer firing while a slow error hook runs: window reached 66x in the quick tier).",
+    "C19": " Client objects built in synchronous set-up code or inside an earlier asyncio.run() whose loop is closed, in random and dedicated histories.",
+}
+
+
 def main() -> None:
     props = [json.loads(l)["id"] for l in (ROOT / "properties.jsonl").read_text().splitlines() if l.strip()]
     checks = []
@@ -160,6 +174,7 @@ def main() -> None:
         if pid not in CHECKS:
             continue
         engine, cat, text, tech, ref = CHECKS[pid]
+        text = text + ROUND14.get(pid, "")
         checks.append({
             "property_id": pid,
             "quick_cmd": f"./check {pid} --tier quick",
